@@ -19,13 +19,15 @@ def run(ctx, prog, facts, tier):
     rules_geom.check_traps_nonadjacent(ctx, prog)
     rules_c02.check_move_footprint(ctx, prog, I, mvs)
     rules_c02.check_capture_footprint(ctx, prog, I)
+    from . import rules_local
+    rules_local.check_capture_tables(ctx, prog, I)
     from . import rules_c01
     rules_c01.check_support_argument(ctx, prog)
     rules_c02.check_take_action_composition(ctx, prog, I, mvs if tier != 'quick' else mvs[::3])
     ctx.floor('C02 move modes', ctx.analysed.get('move_modes', 0), len(mvs))
     ctx.exhaustive = tier != 'quick'
     ctx.assumptions += [
-        'NOT decided: polarity of "unsupported" inside the capture formula; that the destination was empty (C01 clause); '
+        'polarity of "unsupported" is decided by exact tables over the presence of the four neighbours (all colour combinations, all traps); NOT decided: that the destination was empty (C01 clause); '
         'material monotonicity over whole games (follows from the per-step clauses by induction, not mechanised)',
         'a may-dependence is a real dependence (no cancellation inside the formulas)']
     return ('Bit-level abstract interpretation of PieceBoard::move_piece, trapped_piece_bits, remove_trapped_pieces and of '
